@@ -742,11 +742,11 @@ def run_rules(ctx, res):
     # two items of one name, or a field typed by a name of the wrong kind, do not compile
     UNIQ_ITEMS = "R-C05-distinct-items"
     res.rule(UNIQ_ITEMS, "validation guarantees that top-level user names (nonterminals, terminal variants, the terminal enum) are pairwise distinct and that every reference resolves to a definition of its own kind (imported from C10 R-C10-kind incl. the clash map)")
-    vk_ = [v for v in tmp.violations if v.rule == "R-C10-kind"]
+    vk_ = [v for v in tmp.violations if v.rule == "R-C10-kind" or (v.rule == "floor" and ("reference-check" in v.key or "R-C10-kind" in v.key))]
     res.inst(UNIQ_ITEMS, "C10 kind and clash-map rule", "", True, "%d violations" % len(vk_))
     for v in vk_:
         res.violate(UNIQ_ITEMS, "c10|" + v.key, v.where, "the emitted module declares one item per user name and refers to each by kind; C10's rule fails: " + v.msg)
-    bad = [v for v in tmp.violations if v.rule in ("R-C10-leaf", "R-C10-pass")]
+    bad = [v for v in tmp.violations if v.rule in ("R-C10-leaf", "R-C10-pass") or (v.rule == "floor" and ("R-C10-leaf" in v.key or "R-C10-pass" in v.key or "validator" in v.key))]
     res.inst(CAPS, "capitalisation-validators", "", True, "R-C10-leaf and R-C10-pass: %s" % ("hold" if not bad else bad[0].msg[:100]))
     if bad:
         res.violate(CAPS, "capitalisation-validators", bad[0].where, "lowercase literal names in templates are only safe if user item names cannot be lowercase-initial, but the capitalisation validation fails: " + bad[0].msg[:200])
